@@ -32,6 +32,8 @@ type SyncScenario struct {
 	Prefill int         `json:"prefill"` // headers already in the store (0 = empty: subjective initialisation)
 	Tip0    int         `json:"tip0"`    // network head at start
 	Events  []SyncEvent `json:"events"`
+	// Sched, when set, selects the schedule engine (c03sched_test.go); the other fields are unused then.
+	Sched *SyncSchedScenario `json:"sched,omitempty"`
 }
 
 var validGossip = []string{"tip", "tip", "tip", "skip", "dup", "mid"}
@@ -660,7 +662,12 @@ func runSync(t *testing.T, s SyncScenario, c03 bool) (res Result) {
 }
 
 func runC07(t *testing.T, s SyncScenario) Result { return runSync(t, s, false) }
-func runC03(t *testing.T, s SyncScenario) Result { return runSync(t, s, true) }
+func runC03(t *testing.T, s SyncScenario) Result {
+	if s.Sched != nil {
+		return runSyncSched(t, *s.Sched)
+	}
+	return runSync(t, s, true)
+}
 
 func TestC07(t *testing.T)       { check(t, "C07", genSync(false), runC07) }
 func TestC07Replay(t *testing.T) { replay(t, "C07", runC07) }
